@@ -22,12 +22,12 @@ def consts(kind, c, emit, prop=None):
     s = "Size = %d MOO = %d AL = %d MaxTs = %d MaxEv = %d ChanCap = %d Reanchor = TRUE Emit = %s" % (
         c["size"], c["moo"], c["al"], c["maxts"], c["maxev"], c.get("chancap", 100), "TRUE" if emit else "FALSE")
     if kind == "sliding":
-        s += " Slide = %d" % c["slide"]
+        s += " Slide = %d LateAll = TRUE" % c["slide"]
     return s
 
 
 def model_check(res, kind, c, workers=8, timeout=900):
-    invs = "DeliveriesOK NoOnTimeLoss WmOK ImplOK" + (" NotBeforeS0" if kind == "sliding" else "")
+    invs = "DeliveriesOK NoOnTimeLoss WmOK ImplOK" + (" NotBeforeS0 LateRedelivered" if kind == "sliding" else "")
     cfg = "SPECIFICATION Spec\nCONSTANTS %s\nINVARIANTS %s\nPROPERTY WmMonotone\nVIEW View\nCHECK_DEADLOCK FALSE\n" % (consts(kind, c, False, res.prop), invs)
     if kind == "session":
         cfg = "SPECIFICATION Spec\nCONSTANTS %s\nINVARIANTS DeliveriesOK NoLoss NoSplit WmOK NoLateDrop\nVIEW View\nCHECK_DEADLOCK FALSE\n" % consts(kind, c, False, res.prop)
@@ -358,6 +358,25 @@ def proc_stage(res, rng, vh, scen, size=2, maxnow=5, maxev=3, nmodel=120, nfree=
                 if g:
                     steps.append({"a": "sleep", "gap": g})
             sc = {"tr": base, "size_ms": rng.choice([20, 35, 50, 80]), "ticks": 0, "groups": rng.choice([1, 2, 3]), "free": True, "steps": steps}
+            mine[base] = sc
+            f.write(json.dumps(sc) + "\n")
+        # TriggerWindow() in the middle of an interval (no further row until that interval is over): the intervals after it are
+        # still reported complete, each once, none of them before its rows are in
+        for _ in range(max(3, nfree // 3)):
+            base += 1
+            size_ms = rng.choice([60, 80, 120])
+            steps, i = [], 0
+            for _k in range(rng.choice([1, 2, 4])):
+                i += 1
+                steps.append({"a": "add", "id": i})
+            steps.append({"a": "sleep", "gap": rng.choice([0, 5000, 20000])})
+            steps.append({"a": "mtrig"})
+            steps.append({"a": "sleep", "gap": size_ms * 1000})
+            for _k in range(rng.choice([12, 20, 30])):
+                i += 1
+                steps.append({"a": "add", "id": i})
+                steps.append({"a": "sleep", "gap": rng.choice([2000, 10000, 25000, 40000])})
+            sc = {"tr": base, "size_ms": size_ms, "ticks": 0, "groups": rng.choice([1, 2]), "free": True, "steps": steps}
             mine[base] = sc
             f.write(json.dumps(sc) + "\n")
     rc, out = vlib.sh([vh, "proc", "-scen", sc_path, "-out", tr_path, "-par", "24"], 1500)
